@@ -12,7 +12,7 @@
   (`loopFuel`) as in the generated code; an exhausted fuel is `panicV` (the real loop would not
   have terminated within 20000 iterations).
 
-  Rust `>`/`>=` are flipped to `<`/`≤` as in the generated code; `x.powf(y)` is `RFun.pow x y`,
+  Rust `>`/`>=` are flipped to `<`/`≤` as in the generated code; `x.powf(y)` is `RFun.pow x y` (`powfLit2 x` for the literal exponent 2.0, compiled to `x * x`),
   `x.log(b)` is `RFun.logb x b`, `v as u64` is `RFun.toU64 v`, `n as f64` is `RFun.ofInt n`.
   No Mathlib import.
 -/
@@ -276,7 +276,7 @@ def Cauchy.sample_f64 (self : Cauchy α) (rng : Rng) : α × Rng :=
 /-- the fold body of chi.rs:101: `acc + normal::sample_unchecked(rng, 0.0, 1.0).powf(2.0)` -/
 def Chi.sample_f64.step (st : α × Rng) : α × Rng :=
   let (z, rng) := normal_sample_unchecked (α := α) st.2 (0.0 : α) (1.0 : α)
-  (st.1 + (RFun.pow z (2.0 : α)), rng)
+  (st.1 + (powfLit2 z), rng)
 
 /-- chi.rs:98 — `(0..self.freedom()).fold(0.0, …).sqrt()` -/
 def Chi.sample_f64 (self : Chi) (rng : Rng) : α × Rng :=
@@ -404,7 +404,7 @@ def Laplace.sample_f64 [RngFloat α] (self : Laplace α) (rng : Rng) : α × Rng
 /-- levy.rs:111 — `u = OpenClosed01; self.mu + (0.5 * self.c) / erfc_inv(u).powf(2.0)` -/
 def Levy.sample_f64 [SF α] (self : Levy α) (rng : Rng) : α × Rng :=
   let (u, rng) := genOpenClosed01 (α := α) rng
-  (self.f_mu + (((0.5 : α) * self.f_c) / (RFun.pow (SF.erfc_inv u) (2.0 : α))), rng)
+  (self.f_mu + (((0.5 : α) * self.f_c) / (powfLit2 (SF.erfc_inv u))), rng)
 
 /-- log_normal.rs:121 -/
 def LogNormal.sample_f64 (self : LogNormal α) (rng : Rng) : α × Rng :=
